@@ -695,11 +695,15 @@ def run_variants(ctx, d, bases, snaps):
                     continue
                 cand.append((r, name, val, u, name in given))
         rnd.shuffle(cand)
+        names = set()
         for r, name, val, u, isgiven in cand:
             k = (r['utype'], r['pref'], u, r['cur'])
-            if ctx.quick and k in classes:
+            # quick: every entry of the file in one other unit (entries have parameter-specific post-read code: depth x1000,
+            # diameter > 2, gradient > 1 ...), defaults once per unit class; thorough: everything
+            if ctx.quick and ((isgiven and name in names) or (not isgiven and k in classes)):
                 continue
             classes.add(k)
+            names.add(name)
             if r['kind'] == 'int':
                 val = val + F(1, 2)
             x = format(float(to_unit(d, val, r['pref'], u)), '.10g')
